@@ -10,7 +10,7 @@ MUTANTS = [
     M("rtf-simple-normaliser-dropped", X + "ms_legacy/rtf_extractor.py", "        result = _combine_surrogates(\n            _RE_UNICODE.sub(lambda m: chr(int(m.group(1)) & 0xFFFF), result)\n        )", "        result = _RE_UNICODE.sub(lambda m: chr(int(m.group(1)) & 0xFFFF), result)", "C04-CHR"),
     M("decode-surrogateescape", X + "plain_extractor.py", '    return content.decode("utf-8", errors="replace"), "utf-8"', '    return content.decode("utf-8", errors="surrogateescape"), "utf-8"', "C04-CHR"),
     M("size-not-len-of-payload", X + "ms_modern/xlsx_extractor.py", "                                size_bytes=len(image_bytes),", "                                size_bytes=len(image_bytes) + 0 if width else 0,", "C04-BYTES"),
-    M("get-dim-first-row", D, "        rows = len(self.data)\n        columns = max((len(row) for row in self.data), default=0)", "        rows = len(self.data)\n        columns = len(self.data[0]) if self.data else 0", "C04-DIM"),
+    M("get-dim-first-row", D, "        rows = len(self.data)\n        columns = max((len(row) for row in self.data), default=0)\n        return TableDim(rows=rows, columns=columns)\n\n\n@dataclass\nclass XlsxContent", "        rows = len(self.data)\n        columns = len(self.data[0]) if self.data else 0\n        return TableDim(rows=rows, columns=columns)\n\n\n@dataclass\nclass XlsxContent", "C04-DIM"),
     M("error-record-unnumbered", X + "open_office/odt_extractor.py", "                        error=str(e),\n                        image_index=image_counter,\n                    )\n                )\n\n    # Then, find simple images", "                        error=str(e),\n                    )\n                )\n\n    # Then, find simple images", "C04-NUMPOS"),
     M("populate-after-yield-path", X + "open_office/odg_extractor.py", "        metadata.populate_from_path(path)\n        yield OdgContent(", "        if images:\n            metadata.populate_from_path(path)\n        yield OdgContent(", "C04-META"),
     M("populate-none-guard-dropped", D, "        if path is None:\n            return\n        p = Path(path)", "        p = Path(path or \"\")", "C04-META"),
